@@ -96,6 +96,18 @@ fn op_cursor(h: &str, steps: &[&str]) -> String {
                 i += 1;
                 out.push(res_usize(guard(|| s.edns_rr_rdlen())).replace(' ', ":"));
             }
+            "parse" if i + 1 == steps.len() => {
+                // the sector the cursor calls were made on is parsed (and consumed)
+                out.push(format!("off={}", s.offset));
+                let orig = s.packet.clone();
+                let r = match guard(move || s.parse()) {
+                    Ok(Ok(pp)) => if pp.packet.as_deref() != Some(&orig[..]) { "ok-but-bytes-changed".to_string() } else { format!("ok {}", fmt_view(&pp)) },
+                    Ok(Err(e)) => format!("err {}", err_kind(&e)),
+                    Err(()) => "panic".into(),
+                };
+                out.push(format!("parse={}", r.replace(' ', ":")));
+                return out.join(" ");
+            }
             _ => return "bad-op".into(),
         }
     }
@@ -128,12 +140,24 @@ fn sec_tag(s: Section) -> &'static str {
     }
 }
 
+/// `copy_raw_name` appends to the caller's vector and returns the length of the name: called on a vector that already
+/// holds bytes; what was there must stay and the returned length must be the number of bytes appended
+fn raw_name_appended<F: FnOnce(&mut Vec<u8>) -> usize>(f: F) -> String {
+    let prefix = [0xa5u8, 0x5a, 0xc0, 0x0c, 0x00];
+    let mut v = prefix.to_vec();
+    let ret = f(&mut v);
+    if v.len() < prefix.len() || v[..prefix.len()] != prefix || ret != v.len() - prefix.len() {
+        return format!("RAWNAME-CONTRACT-BROKEN(ret={}/appended={})", ret, v.len() as i64 - prefix.len() as i64);
+    }
+    hex(&v[prefix.len()..])
+}
+
 fn dump_q(i: &QuestionIterator) -> String {
     format!(
         "{},{},{},{},{},{}",
         opt(i.offset()),
         fld(|| i.name(), |v| hex(&v)),
-        fld(|| { let mut v = vec![]; i.copy_raw_name(&mut v); v }, |v| hex(&v)),
+        fld(|| raw_name_appended(|v| i.copy_raw_name(v)), |v| v),
         fld(|| i.rr_type(), |v| v.to_string()),
         fld(|| i.rr_class(), |v| v.to_string()),
         fld_res(|| i.current_section(), |v| sec_tag(v).to_string())
@@ -152,7 +176,7 @@ pub fn dump_r(i: &ResponseIterator) -> String {
         "{},{},{},{},{},{},{},{},{},{}",
         opt(i.offset()),
         fld(|| i.name(), |v| hex(&v)),
-        fld(|| { let mut v = vec![]; i.copy_raw_name(&mut v); v }, |v| hex(&v)),
+        fld(|| raw_name_appended(|v| i.copy_raw_name(v)), |v| v),
         fld(|| i.rr_type(), |v| v.to_string()),
         fld(|| i.rr_class(), |v| v.to_string()),
         fld(|| i.rr_ttl(), |v| v.to_string()),
